@@ -144,6 +144,14 @@ def _work(job: t.Tuple[t.Any, ...]) -> evid.Local:
         for b, c in itertools.product(small[:8], repeat=2):
             for sp in decs:
                 _emit(loc, f"({sp[0]}&{sp[1]}(|{sp[2]}({a}){sp[3]}(!{sp[4]}({b}){sp[5]}){sp[6]}){sp[7]}({c}){sp[8]})")
+    elif fam == "hex":
+        # every two-hex-digit escape in either case of each digit, in every value position
+        digits = "0123456789abcdefABCDEF"
+        for h1 in digits[job[1] : job[2]]:
+            for h2 in digits:
+                e = f"\\{h1}{h2}"
+                for s in (f"(cn={e})", f"(cn~={e}a)", f"(cn>=a{e})", f"(cn={e}*a*{e})", f"(cn=*{e}{e}*)", f"(cn:dn:2.4.6:={e})", f"(&(cn={e})(!(o<={e}{e})))"):
+                    _emit(loc, s)
     elif fam == "d3":
         decs = decorate(8, 1)
         a = small[job[1]]
@@ -176,6 +184,7 @@ def run(ctx: evid.Ctx) -> None:
     jobs += [("list3", i) for i in range(6)]
     jobs += [("d2", i) for i in range(8)]
     jobs += [("d3", i) for i in range(8)]
+    jobs += [("hex", a, b) for a, b in par.split(22, 11)]
     # the RFC's own examples
     for ex in filt.RFC4515_EXAMPLES:
         r = check_one(ex)
